@@ -299,6 +299,7 @@ package commitlog
 //@ globalinv ErrCommitLogDeleted serves C16, C01, C05: ErrCommitLogDeleted != nil
 //@ globalinv ErrEntryNotFound serves C16, C01, C05: ErrEntryNotFound != nil
 //@ globalinv ErrSegmentClosed serves C16, C01, C05: ErrSegmentClosed != nil
+//@ globalinv ErrSegmentNotFound serves C03, C01, C10: ErrSegmentNotFound != nil
 //@ globalinv ErrSegmentReplaced serves C16, C01, C05: ErrSegmentReplaced != nil
 //@ globalinv ErrSegmentExists serves C16, C01: ErrSegmentExists != nil
 //@ globalinv ErrCommitLogReadonly serves C16, C01: ErrCommitLogReadonly != nil
@@ -506,16 +507,18 @@ package commitlog
 //@ pure func entryOffAt(idx *index, i int64) int64
 //@ pure func entryCount(idx *index) int64 = idx.position / 20
 //@ pure func entryTsAt(idx *index, i int64) int64
+//@ pure func entryPosAt(idx *index, i int64) int64
+//@ pure func entrySizeAt(idx *index, i int64) int64
 //@ assume func (*index).ReadEntryAtFileOffset
 //@   modifies e.Offset, e.Timestamp, e.Position, e.Size
 //@   ensures (result == nil) <==> (0 <= fileOffset && fileOffset + 20 <= idx.position)
-//@   ensures result == nil && fileOffset % 20 == 0 ==> e.Offset == entryOffAt(idx, fileOffset / 20) && e.Timestamp == entryTsAt(idx, fileOffset / 20)
+//@   ensures result == nil && fileOffset % 20 == 0 ==> e.Offset == entryOffAt(idx, fileOffset / 20) && e.Timestamp == entryTsAt(idx, fileOffset / 20) && e.Position == entryPosAt(idx, fileOffset / 20) && int64(e.Size) == entrySizeAt(idx, fileOffset / 20)
 //@   ensures result != ErrEntryNotFound
 //@ func (*index).ReadEntryAtLogOffset serves C08, C10, C11, C01, C03
 //@   requires idx != nil && e != nil && idx.position >= 0
 //@   modifies e.Offset, e.Timestamp, e.Position, e.Size
 //@   ensures (result == nil) <==> (0 <= logOffset && logOffset < entryCount(idx))
-//@   ensures result == nil ==> e.Offset == entryOffAt(idx, logOffset) && e.Timestamp == entryTsAt(idx, logOffset)
+//@   ensures result == nil ==> e.Offset == entryOffAt(idx, logOffset) && e.Timestamp == entryTsAt(idx, logOffset) && e.Position == entryPosAt(idx, logOffset) && int64(e.Size) == entrySizeAt(idx, logOffset)
 //@ func (*index).Position serves C08, C10, C01
 //@   requires idx != nil
 //@   modifies nothing
@@ -532,6 +535,7 @@ package commitlog
 //@   assumes forall i int64, j int64 :: 0 <= i && i < j && j < entryCount(s.Index) ==> entryOffAt(s.Index, i) < entryOffAt(s.Index, j)
 //@   ensures [at-or-above] err == nil ==> ent != nil && ent.Offset >= offset
 //@   ensures [is-an-entry] err == nil ==> (exists k int64 :: 0 <= k && k < entryCount(s.Index) && ent.Offset == entryOffAt(s.Index, k))
+//@   ensures [its-place-in-the-log] err == nil ==> (exists k int64 :: 0 <= k && k < entryCount(s.Index) && ent.Offset == entryOffAt(s.Index, k) && ent.Position == entryPosAt(s.Index, k) && int64(ent.Size) == entrySizeAt(s.Index, k) && (forall i int64 :: 0 <= i && i < k ==> entryOffAt(s.Index, i) < offset))
 //@   ensures [first-such] err == nil ==> (forall i int64 :: 0 <= i && i < entryCount(s.Index) && entryOffAt(s.Index, i) >= offset ==> ent.Offset <= entryOffAt(s.Index, i))
 //@   ensures [none] err == ErrEntryNotFound ==> (forall i int64 :: 0 <= i && i < entryCount(s.Index) ==> entryOffAt(s.Index, i) < offset)
 //@ func newReverseIndexScanner serves C08, C10, C11
@@ -722,3 +726,16 @@ package commitlog
 // crash points (verification hook, see crashpoint_verif.go): the hook only observes the directory, it changes nothing
 //@ assume func crashPoint
 //@   modifies nothing
+
+// getHWPos: the byte position up to which a committed reader may read in the watermark's segment - it covers every
+// entry at or below the watermark and no entry above it (also when the message at the watermark itself is gone)
+//@ func getHWPos serves C03
+//@   returns (idx, pos, err)
+//@   assumes forall i int :: 0 <= i && i < len(segments) ==> segments[i] != nil && segments[i].Index != nil && segments[i].Index.position >= 0
+//@   assumes forall i int, j int :: 0 <= i && i < j && j < len(segments) ==> nextOf(segments[i]) <= nextOf(segments[j])
+//@   assumes forall x *segment, i int64, j int64 {entryOffAt(x.Index, i), entryOffAt(x.Index, j)} :: x != nil && 0 <= i && i < j && j < entryCount(x.Index) ==> entryOffAt(x.Index, i) < entryOffAt(x.Index, j)
+//@   assumes forall x *segment, i int64, j int64 {entryPosAt(x.Index, i), entryPosAt(x.Index, j)} :: x != nil && 0 <= i && i < j && j < entryCount(x.Index) ==> entryPosAt(x.Index, i) + entrySizeAt(x.Index, i) <= entryPosAt(x.Index, j)
+//@   assumes forall x *segment, i int64 {entrySizeAt(x.Index, i)} :: x != nil && 0 <= i && i < entryCount(x.Index) ==> entrySizeAt(x.Index, i) >= 0
+//@   ensures [in-range] err == nil ==> 0 <= idx && idx < len(segments)
+//@   ensures [nothing-above-the-watermark-is-covered] err == nil ==> (forall i int64 :: 0 <= i && i < entryCount(segments[idx].Index) && entryOffAt(segments[idx].Index, i) > hw ==> entryPosAt(segments[idx].Index, i) >= pos)
+//@   ensures [everything-up-to-the-watermark-is-covered] err == nil ==> (forall i int64 :: 0 <= i && i < entryCount(segments[idx].Index) && entryOffAt(segments[idx].Index, i) <= hw ==> entryPosAt(segments[idx].Index, i) + entrySizeAt(segments[idx].Index, i) <= pos)
